@@ -343,4 +343,13 @@ theorem ownership_check_position :
     Helm.Spec.precedes "existingResourceConflict" "u.releasingUpgrade" Helm.Gen.skelUpgradePerform = true ∧
     Helm.Spec.precedes "i.installCRDs" "existingResourceConflict" Helm.Gen.skelInstallRun = true := by decide
 
+/-- `--take-ownership` is the only flag bound to TakeOwnership, in install and upgrade (regenerated from pkg/cmd at
+every run). -/
+theorem take_ownership_flag_bound :
+    Helm.Spec.forwardsAll Helm.Gen.installFlags [("take-ownership", "client.TakeOwnership")] = true ∧
+    Helm.Spec.forwardsAll Helm.Gen.upgradeFlags [("take-ownership", "client.TakeOwnership")] = true ∧
+    (Helm.Gen.installFlags.filter (fun p => p.2 == "client.TakeOwnership")).length = 1 ∧
+    (Helm.Gen.upgradeFlags.filter (fun p => p.2 == "client.TakeOwnership")).length = 1 := by
+  decide
+
 end Helm.Props.C07
